@@ -73,12 +73,16 @@ def explore(sim, drv, actions, zero_inputs: dict, cap: int):
     Applies every action from every reached joint state until closure or `cap` states.
     Returns dict(closed, states, transitions, failure=None | (path, when, problems), error=None | (SimError, when)).
     """
+    import hashlib
+    import marshal
     from collections import deque
 
     def key_of(snap, ms):
         # `last` (previous value; only rising_edge(clk) reads it) is the same for clk at every snapshot point
-        # and irrelevant for every other signal: the key keeps current values, drivers and process variables
-        return (tuple((c, d) for c, _l, d in snap[0]), snap[1], ms)
+        # and irrelevant for every other signal: the key keeps current values, drivers and process variables.
+        # Stored as a 128-bit digest of the canonical serialisation (keeps 10^5..10^6 states in memory).
+        return hashlib.blake2b(marshal.dumps((tuple((c, d) for c, _l, d in snap[0]), snap[1], ms), 2),
+                               digest_size=16).digest()  # marshal version 2: no object-identity references
 
     snap0 = sim.snapshot()
     ms0 = drv.state()
